@@ -140,12 +140,35 @@ func checkMain(args []string) {
 	}
 	perKind := map[string]int{}
 	nviol := 0
-	for _, c := range g.cases {
-		co := make([]string, len(c.Lines))
-		for k, l := range c.Lines {
-			co[k] = outs[idx[l]]
+	// the oracles are pure functions of the outputs: evaluate them on all cores, aggregate in case order
+	msgs := make([]string, len(g.cases))
+	{
+		nw := runtime.NumCPU()
+		var wg sync.WaitGroup
+		for w := 0; w < nw; w++ {
+			wg.Add(1)
+			go func(w int) {
+				defer wg.Done()
+				for ci := w; ci < len(g.cases); ci += nw {
+					c := &g.cases[ci]
+					co := make([]string, len(c.Lines))
+					for k, l := range c.Lines {
+						co[k] = outs[idx[l]]
+					}
+					msgs[ci] = c.Check(co)
+				}
+			}(w)
 		}
-		if msg := c.Check(co); msg != "" {
+		wg.Wait()
+	}
+	for ci, c := range g.cases {
+		co := make([]string, len(c.Lines))
+		if msgs[ci] != "" {
+			for k, l := range c.Lines {
+				co[k] = outs[idx[l]]
+			}
+		}
+		if msg := msgs[ci]; msg != "" {
 			key := c.Desc + "|" + msg
 			if len(key) > len(c.Desc)+25 {
 				key = key[:len(c.Desc)+25]
